@@ -439,7 +439,7 @@ Definition ext_allowed_ro : list (bytes * (list N * list N)) := [
   (B "encoding/json.Marshal", ([], [])); (B "github.com/go-ap/jsonld.Marshal", ([], []));
   (* time values *)
   (B "time.Time.After", ([], [])); (B "time.Time.Equal", ([], [])); (B "time.Time.Format", ([], [])); (B "time.Time.GobEncode", ([], []));
-  (B "time.Time.IsZero", ([], [])); (B "time.Time.UTC", ([], [])); (B "time.Time.Before", ([], [])); (B "time.Time.Sub", ([], []));
+  (B "time.Time.IsZero", ([], [])); (B "time.Time.UTC", ([], [])); (B "time.Time.Before", ([], [])); (B "time.Time.Sub", ([], [])); (B "time.Time.Year", ([], []));
   (B "time.Duration.Seconds", ([], []));
   (* reflect, to look at a value *)
   (B "reflect.ValueOf", ([], [])); (B "reflect.TypeOf", ([], [])); (B "reflect.TypeFor[*T]", ([], [])); (B "reflect.Value.Kind", ([], []));
